@@ -2572,3 +2572,93 @@ PER_NATIVE = _native("verif_replay_per_readers", "src/core/per.rs", """
         }""")
 
 PER_TARGETS = [(r"^read_(length|choice|selection|number_of_set|enumerates|integer|integer_16|object_identifier|numeric_string|padding|octet_stream)$", [])]
+
+
+# --------------------------------------------------------------------------
+# C15 additions: key derivation agreement and MIC placement
+# --------------------------------------------------------------------------
+NTLM_KEYS_NATIVE = _native("verif_replay_ntlm_hash_vs_password", "src/nla/ntlm.rs", """
+        // connecting from the NT hash must give the same response key as connecting from the password, for any name
+        for (u, d) in [("user", "DOMAIN"), ("j\\u{e9}r\\u{f4}me", "corp"), ("\\u{441}\\u{435}\\u{440}\\u{433}\\u{435}\\u{439}", "\\u{434}\\u{43e}\\u{43c}"), ("stra\\u{df}e", ""), ("", "")].iter() {
+            let pwd = "P\\u{e4}ssw\\u{f6}rd!".to_string();
+            let a = ntowfv2(&pwd, &u.to_string(), &d.to_string());
+            let b = ntowfv2_hash(&md4(&unicode(&pwd)), &u.to_string(), &d.to_string());
+            assert_eq!(a, b, "response key from password and from hash differ for user {:?}", u);
+            let independent = hmac_md5(&md4(&unicode(&pwd)), &unicode(&(u.to_uppercase() + d)));
+            assert_eq!(a, independent, "NTOWFv2 for user {:?}", u);
+        }""")
+
+NTLM_MIC_NATIVE = _native("verif_replay_ntlm_mic_placement", "src/nla/ntlm.rs", """
+        // an independent MS-NLMP check of the AUTHENTICATE token for challenges with and without the Version field
+        for flags in [0x0000_0001u32, 0x0200_0001, 0x0280_0001, 0x0080_0001].iter() {
+            let version = flags & 0x0200_0000 != 0;
+            let mut ch = b"NTLMSSP\\0".to_vec();
+            ch.extend_from_slice(&[2, 0, 0, 0,  0, 0, 0, 0, 0, 0, 0, 0]);
+            ch.extend_from_slice(&flags.to_le_bytes());
+            ch.extend_from_slice(&[1, 2, 3, 4, 5, 6, 7, 8]);
+            ch.extend_from_slice(&[0; 8]);
+            let info: Vec<u8> = vec![7, 0, 8, 0, 1, 2, 3, 4, 5, 6, 7, 8, 0, 0, 0, 0];
+            let off = if version { 56u32 } else { 48 };
+            ch.extend_from_slice(&[info.len() as u8, 0, info.len() as u8, 0]);
+            ch.extend_from_slice(&off.to_le_bytes());
+            if version { ch.extend_from_slice(&[6, 0, 0x72, 0x17, 0, 0, 0, 15]); }
+            ch.extend_from_slice(&info);
+            let mut n = Ntlm::new("dom".to_string(), "usr".to_string(), "pwd".to_string());
+            let neg = n.create_negotiate_message().unwrap();
+            let token = n.read_challenge_message(&ch).unwrap();
+            let key = n.exported_session_key.clone().unwrap();
+            let mic_off = if version { 72 } else { 64 };
+            let mut zeroed = token.clone();
+            for i in mic_off..mic_off + 16 { zeroed[i] = 0; }
+            let expect = hmac_md5(&key, &[neg.clone(), ch.clone(), zeroed].concat());
+            assert_eq!(&token[mic_off..mic_off + 16], &expect[..], "MIC (flags {:#x}) is not at its place / does not cover the three messages", flags);
+            // every descriptor addresses bytes inside the token, and the LM response ends with the 8-byte client challenge found in the NT response
+            for k in 0..6 {
+                let d = 12 + 8 * k;
+                let len = (token[d] as usize) | ((token[d + 1] as usize) << 8);
+                let o = (token[d + 4] as usize) | ((token[d + 5] as usize) << 8) | ((token[d + 6] as usize) << 16) | ((token[d + 7] as usize) << 24);
+                assert!(o >= mic_off + 16 && o + len <= token.len(), "field {} (flags {:#x}) outside the payload", k, flags);
+            }
+            let lm_off = (token[16] as usize) | ((token[17] as usize) << 8);
+            let nt_off = (token[24] as usize) | ((token[25] as usize) << 8);
+            assert_eq!(&token[lm_off + 16..lm_off + 24], &token[nt_off + 32..nt_off + 40], "client challenge of the LM and NT responses (flags {:#x})", flags);
+        }""")
+
+
+def ntlm_derivation(ctx, mir, stats):
+    obs = []
+
+    def seq(fn_name):
+        f = find_fn(mir, r"^%s$" % fn_name)
+        se = SymExec(f, stats).run()
+        best = max(se.finished, key=lambda p: len(p.events))
+        return f, [re.sub(r"^std::str::<impl str>::|^<String as Add<&str>>::", "", e[2]) for e in best.events if e[0] == "call" and re.search(r"to_uppercase|to_ascii_uppercase|make_ascii_uppercase|to_lowercase|Add<|^unicode$|^md4$|^hmac_md5$", e[2])]
+    f1, s1 = seq("ntowfv2")
+    f2, s2 = seq("ntowfv2_hash")
+    want2 = ["to_uppercase", "add", "unicode", "hmac_md5"]
+    want1 = ["unicode", "md4"] + want2
+    ok = s1 == want1 and s2 == want2
+    obs.append({"id": "ntowfv2:same-derivation-from-password-and-hash", "ok": ok, "functions": [f1.name, f2.name], "needs_native": True, "native": None if ok else NTLM_KEYS_NATIVE,
+                "detail": "both derive HMAC-MD5(NT hash, UTF-16(UPPER(user) + domain)) with the Unicode upper-casing; the password path only prepends MD4(UTF-16(password))" if ok else "derivations differ: password path %s, hash path %s" % (s1, s2),
+                "where": f1.name})
+    g = find_fn(mir, r"ntlm::<impl at src/nla/ntlm\.rs[^>]*>::read_challenge_message$")
+    sg = SymExec(g, stats, loop_bound=0, max_paths=20000).run()
+    best = None
+    for p in sg.finished:
+        if calls_on(p.events, r"^authenticate_message$") and calls_on(p.events, r"^mic$") and re.search(r"Ok\(", _last_assign_to_ret(p) or ""):
+            best = p
+    if best is None:
+        obs.append({"id": "read_challenge_message:token-assembly", "ok": False, "functions": [g.name], "needs_native": True, "native": NTLM_MIC_NATIVE, "detail": "no successful path builds the token from authenticate_message and mic", "where": g.name})
+        return obs
+    ev = best.events
+    mc = calls_on(ev, r"^mic$")[-1]
+    tv = [(i, e) for i, e in calls_on(ev, r"^to_vec$") if i > mc[0]]
+    pushes = [(i, e) for i, e in calls_on(ev, r"Vec::<Box<dyn Message>>::push$") if i > mc[0]]
+    ok2 = False
+    if len(tv) == 1 and len(pushes) == 3:
+        srcs = [resolve_source(ev, i, e[4][1], depth=10) for i, e in pushes]
+        ok2 = "authenticate_message" in srcs[0] and "mic" in srcs[1] and "authenticate_message" in srcs[2]
+    obs.append({"id": "read_challenge_message:token-assembly", "ok": ok2, "functions": [g.name], "needs_native": True, "native": None if ok2 else NTLM_MIC_NATIVE,
+                "detail": "final token = AUTHENTICATE header | MIC | payload, serialised once after the MIC is known (so the MIC sits right after the header whatever the Version flag)" if ok2 else
+                "the final token is not assembled as header | MIC | payload (pushes after mic: %d, to_vec: %d)" % (len(pushes), len(tv)), "where": g.name})
+    return obs
